@@ -302,7 +302,11 @@ def run_in(ctx, tmpdir):
         case = dict(side="read", typed=typed, doc=doc)
         fm = {}
         try:
-            t2 = cls.load(io.StringIO(json.dumps(doc)), mapper=(m.deser if objs else None), file_meta=fm)
+            from props.c05 import consuming
+
+            # every other reader mapper EMPTIES the entry dict it was given (the loader must have read what it needs before)
+            rd = (consuming(m.deser) if k % 4 >= 2 else m.deser) if objs else None
+            t2 = cls.load(io.StringIO(json.dumps(doc)), mapper=rd, file_meta=fm)
             res = S.tree_shape(t2, pool)
         except Exception as e:  # noqa
             res = "err:" + adapter.err_class(e)
